@@ -507,6 +507,7 @@ impl Ctx {
         let mut total_runs = 0u64;
         let mut corpus_total = 0u64;
         let mut cov = 0u64;
+        let mut spurious_alarms = 0u64;
         for (mut child, corpus, reader) in children {
             let status = match child.wait() {
                 Ok(o) => o,
@@ -547,8 +548,31 @@ impl Ctx {
                         println!("VIOLATION property={} replay={}", self.property, path);
                         ok = false;
                     } else if err.contains("ALARM") || err.contains("timeout") {
-                        eprintln!("INCONCLUSIVE: fuzz target {target} hit the per-input watchdog ({path})");
-                        std::process::exit(2);
+                        // libFuzzer's per-input alarm is wall-clock: a paused or starved machine
+                        // trips it on inputs that take milliseconds. Re-run the saved input here
+                        // under our own watchdog before believing it.
+                        let data = std::fs::read(&path).unwrap_or_default();
+                        let tname = target.to_string();
+                        let (tx, rx) = std::sync::mpsc::channel();
+                        std::thread::spawn(move || {
+                            let _ = tx.send(crate::fuzzing::run_target(&tname, &data));
+                        });
+                        match rx.recv_timeout(std::time::Duration::from_secs(120)) {
+                            Ok(Some(crate::fuzzing::FuzzOutcome::Fail(m))) => {
+                                self.violated.store(true, Ordering::SeqCst);
+                                println!("--- violation detail (fuzz target {target}) ---\n{}", m.chars().take(3000).collect::<String>());
+                                println!("VIOLATION property={} replay={}", self.property, path);
+                                ok = false;
+                            }
+                            Ok(_) => {
+                                spurious_alarms += 1;
+                                let _ = std::fs::remove_file(&path);
+                            }
+                            Err(_) => {
+                                eprintln!("INCONCLUSIVE: fuzz target {target} hit the per-input watchdog and the input still runs after 120 s here ({path})");
+                                std::process::exit(2);
+                            }
+                        }
                     } else {
                         // a crash outside the oracle: a panic of the code under test escaping the guards
                         self.violated.store(true, Ordering::SeqCst);
@@ -566,6 +590,9 @@ impl Ctx {
         stats.classes.insert("coverage_edges".into(), cov);
         stats.classes.insert("corpus_entries".into(), corpus_total);
         stats.classes.insert("processes".into(), procs as u64);
+        if spurious_alarms > 0 {
+            stats.classes.insert("wall_clock_alarms_not_reproduced".into(), spurious_alarms);
+        }
         self.sub.lock().unwrap().push(SubReport {
             name: name.to_string(),
             stats,
